@@ -49,6 +49,9 @@ def Recv.step (r : Recv) (c : RChunk) : Outcome (Recv × List Msg) :=
   else
     -- `_get_inbound_stream`: creates an empty `InboundStream` when absent
     let s := (dictGet r.streams c.sid).getD {}
+    -- still waiting in the reassembly queue: dropped as a duplicate before `add_chunk`
+    if s.reasm.any (fun x => x.tsn == c.tsn) then .ok ({ r with rx := rx' }, [])
+    else
     match s.addChunk c with
     | .ok s1 =>
       match s1.popMessages with
